@@ -334,8 +334,9 @@ def run_check(modname, tier, seed, quiet=False):
     for v in matched:
         out.write("KNOWN-FINDING: property=%s key=%s %s\n" % (pid, v["key"], known[v["key"]]))
     stale = sorted(set(known) - set(v["key"] for v in matched))
-    for k in stale:
-        out.write("note: listed finding %s did not reproduce in this run (tier %s)\n" % (k, tier))
+    if stale:
+        out.write("note: %d listed finding(s) of %s did not reproduce at tier %s: %s\n"
+                  % (len(stale), pid, tier, " ".join(stale[:8]) + (" ..." if len(stale) > 8 else "")))
     for v in unlisted:
         out.write("VIOLATION property=%s replay=%s\n" % (pid, v["path"]))
         if not quiet:
